@@ -19,6 +19,9 @@ theorem takeAlloc_spec (h : Heap) : ∃ bud, (takeAlloc h).1 = { h with budget :
     | zero => exact ⟨none, rfl, fun h => by cases h⟩
     | succ k => exact ⟨some k, rfl, fun h => by cases h⟩
 
+/-- the slots of an object that operations look through -/
+def Obj.slots (o : Obj) : List (Option Nat) × List (Option Nat) := (o.bufs, o.views)
+
 /-- what the slot-copying loops guarantee about the rest of the heap -/
 structure SlotsOk (h h' : Heap) : Prop where
   nobj : h.nobj ≤ h'.nobj
@@ -26,12 +29,17 @@ structure SlotsOk (h h' : Heap) : Prop where
   objLive : ∀ x, (h.objs x).isSome → (h'.objs x).isSome
   bufLive : ∀ b, (h.bufs b).isSome → (h'.bufs b).isSome
   budget : h.budget = none → h'.budget = none
+  bufsOld : ∀ b, b < h.nbuf → h'.bufs b = h.bufs b
+  objsOld : ∀ j, j < h.nobj → (h'.objs j).map Obj.slots = (h.objs j).map Obj.slots
 
-theorem SlotsOk.refl (h : Heap) : SlotsOk h h := ⟨Nat.le_refl _, Nat.le_refl _, fun _ h => h, fun _ h => h, fun h => h⟩
+theorem SlotsOk.refl (h : Heap) : SlotsOk h h :=
+  ⟨Nat.le_refl _, Nat.le_refl _, fun _ h => h, fun _ h => h, fun h => h, fun _ _ => rfl, fun _ _ => rfl⟩
 
 theorem SlotsOk.trans {h h1 h' : Heap} (h1s : SlotsOk h h1) (hs : SlotsOk h1 h') : SlotsOk h h' :=
   ⟨Nat.le_trans h1s.nobj hs.nobj, Nat.le_trans h1s.nbuf hs.nbuf,
-   fun x hx => hs.objLive x (h1s.objLive x hx), fun b hb => hs.bufLive b (h1s.bufLive b hb), fun hb => hs.budget (h1s.budget hb)⟩
+   fun x hx => hs.objLive x (h1s.objLive x hx), fun b hb => hs.bufLive b (h1s.bufLive b hb), fun hb => hs.budget (h1s.budget hb),
+   fun b hb => by rw [hs.bufsOld b (Nat.lt_of_lt_of_le hb h1s.nbuf), h1s.bufsOld b hb],
+   fun j hj => by rw [hs.objsOld j (Nat.lt_of_lt_of_le hj h1s.nobj), h1s.objsOld j hj]⟩
 
 /-- duplicating the buffer slots, with or without an injected allocation failure: whatever was allocated is held
 by the hook afterwards -/
@@ -89,7 +97,7 @@ theorem copyBufs_bal : ∀ (bs : List (Option Nat)) (as : List BufAct) {h : Heap
             have e : takeAlloc h = ({ h with budget := bud }, false) := by rw [← hta, ← hok]
             simp only [e, Bool.false_eq_true, if_false, Prod.mk.injEq] at he
             obtain ⟨rfl, rfl, rfl⟩ := he
-            refine ⟨by simpa using hb.setBudget bud, ⟨Nat.le_refl _, Nat.le_refl _, fun _ h => h, fun _ h => h, ?_⟩, rfl, rfl, by simp, by simp, ?_⟩
+            refine ⟨by simpa using hb.setBudget bud, ⟨Nat.le_refl _, Nat.le_refl _, fun _ h => h, fun _ h => h, ?_, fun _ _ => rfl, fun _ _ => rfl⟩, rfl, rfl, by simp, by simp, ?_⟩
             · intro hn; have := (htb hn).1; rw [hok] at this; cases this
             · intro hn; have := (htb hn).1; rw [hok] at this; cases this
           | true =>
@@ -112,8 +120,14 @@ theorem copyBufs_bal : ∀ (bs : List (Option Nat)) (as : List BufAct) {h : Heap
               intro b'
               simp only [List.filterMap_cons, id, List.count_append, List.count_cons]
               omega
-            · exact ⟨hs.nobj, Nat.le_trans (Nat.le_succ _) hs.nbuf, hs.objLive, fun b' hb'' => hs.bufLive b' (hold b' hb''),
-                fun hn => hs.budget (by show bud = none; exact (htb hn).2)⟩
+            · refine ⟨hs.nobj, Nat.le_trans (Nat.le_succ _) hs.nbuf, hs.objLive, fun b' hb'' => hs.bufLive b' (hold b' hb''),
+                fun hn => hs.budget (by show bud = none; exact (htb hn).2), ?_, hs.objsOld⟩
+              intro b' hb''
+              have h1 : b' < h.nbuf + 1 := Nat.lt_succ_of_lt hb''
+              have h2 := hs.bufsOld b' h1
+              rw [h2]
+              have : b' ≠ h.nbuf := by omega
+              simp [upd, this]
             · intro b' hbm
               simp only [List.mem_cons, Option.some.injEq] at hbm
               rcases hbm with hbm | hbm
@@ -207,11 +221,15 @@ theorem copyRefs_bal (cp : Heap → Nat → Heap × Option Nat) (bound : Nat) (h
           simp only [copyRefs] at he
           refine cont (grab h x) x (hb.grabbed hox (by simp)) ?_ he
           rw [grab_eq hb.ok hox]
-          refine ⟨Nat.le_refl _, Nat.le_refl _, ?_, fun _ h => h, fun h => h⟩
-          intro z hz
-          by_cases hzx : z = x
-          · subst hzx; simp
-          · simpa [upd, hzx] using hz
+          refine ⟨Nat.le_refl _, Nat.le_refl _, ?_, fun _ h => h, fun h => h, fun _ _ => rfl, ?_⟩
+          · intro z hz
+            by_cases hzx : z = x
+            · subst hzx; simp
+            · simpa [upd, hzx] using hz
+          · intro j _
+            by_cases hjx : j = x
+            · subst hjx; simp [hox, Obj.slots]
+            · simp [upd, hjx]
         | deep =>
           simp only [copyRefs] at he
           cases hcpx : cp h x with
@@ -262,16 +280,12 @@ theorem Bal.buf_live {h : Heap} {U : Nat → Nat} {P PB Z : List Nat} (hb : Bal 
     exact absurd (List.count_pos_iff.mpr hr) (by omega)
 
 theorem views_repointed {views : List (Option Nat)} {dv : List (ViewAct × Nat)} {nb : List (Option Nat)}
-    (hw : ∀ v ∈ dv, v.1 = .repoint) (w : Nat)
-    (hm : some w ∈ (views.zip dv).map fun (v, (act, slot)) =>
-      match act with
-      | .stale => v
-      | .repoint => match v with | none => none | some _ => listGet nb slot) : some w ∈ nb := by
+    (hw : ∀ v ∈ dv, v.1 = .repoint) (w : Nat) (hm : some w ∈ repointViews views dv nb) : some w ∈ nb := by
   obtain ⟨⟨v, act, slot⟩, hmem, heq⟩ := List.mem_map.mp hm
   have hact : act = .repoint := hw (act, slot) (List.of_mem_zip hmem).2
   subst hact
   cases v with
-  | none => simp at heq
+  | none => simp [repointView] at heq
   | some _ => exact listGet_mem heq
 
 /-! ### the failure path -/
@@ -373,7 +387,7 @@ theorem sqfsCopy_bal (D : Kind → CopyDesc) (hD : ∀ k, WfDesc (D k)) : ∀ n,
       simp only [e] at he
       have hb0 : Bal ({ h with budget := bud } : Heap) U P PB [] := hb.setBudget bud
       have hs0 : SlotsOk h ({ h with budget := bud } : Heap) :=
-        ⟨Nat.le_refl _, Nat.le_refl _, fun _ h => h, fun _ h => h, fun hn => (htb hn).2⟩
+        ⟨Nat.le_refl _, Nat.le_refl _, fun _ h => h, fun _ h => h, fun hn => (htb hn).2, fun _ _ => rfl, fun _ _ => rfl⟩
       -- publishing the finished struct
       have fin : ∀ (h2 : Heap) (nb nr : List (Option Nat)), Bal h2 U (nr.filterMap id ++ P) (nb.filterMap id ++ PB) [] →
           SlotsOk h h2 → (∀ r, some r ∈ nr → (h2.objs r).isSome) → finishCopy (D o.kind) h2 o nb nr = (h', r) →
@@ -398,12 +412,16 @@ theorem sqfsCopy_bal (D : Kind → CopyDesc) (hD : ∀ k, WfDesc (D k)) : ∀ n,
           · rfl
           · intro r hr; exact hb2.bound r (hnr r hr)
           · intro v hv; exact views_repointed hw3 v hv
-        · refine ⟨Nat.le_trans hs2.nobj (Nat.le_succ _), hs2.nbuf, ?_, hs2.bufLive, hs2.budget⟩
-          intro z hz
-          have := hs2.objLive z hz
-          by_cases hzn : z = h2.nobj
-          · subst hzn; simp
-          · simpa [upd, hzn] using this
+        · refine ⟨Nat.le_trans hs2.nobj (Nat.le_succ _), hs2.nbuf, ?_, hs2.bufLive, hs2.budget, hs2.bufsOld, ?_⟩
+          · intro z hz
+            have := hs2.objLive z hz
+            by_cases hzn : z = h2.nobj
+            · subst hzn; simp
+            · simpa [upd, hzn] using this
+          · intro j hj
+            have hne : j ≠ h2.nobj := by have := hs2.nobj; omega
+            rw [← hs2.objsOld j hj]
+            simp [upd, hne]
       -- a failure after the struct was allocated: the failure path restores the balance
       have failed : ∀ (h2 : Heap) (nb nr : List (Option Nat)), Bal h2 U (nr.filterMap id ++ P) (nb.filterMap id ++ PB) [] →
           nr.length ≤ o.refs.length → nr.length ≤ (D o.kind).refs.length → nb.length ≤ o.bufs.length →
@@ -549,8 +567,7 @@ theorem Bal.view_writeSlot_other {h : Heap} {U : Nat → Nat} {P PB Z : List Nat
     simp only [hbf]
     have hnot : some b ∉ oy.bufs := hb.bufs_disjoint hx hy hxz hyz hne hown
     unfold view
-    simp only [hy]
-    congr 1
+    simp only [hy, Option.map_some, Option.some.injEq]
     apply List.map_congr_left
     intro sl hsl
     cases sl with
@@ -561,7 +578,7 @@ theorem Bal.view_writeSlot_other {h : Heap} {U : Nat → Nat} {P PB Z : List Nat
         · exact h1
         · exact (hb.live y oy hy hyz).2.2.2.2.2 b' h1
       have : b' ≠ b := by rintro rfl; exact hnot hb'
-      simp [upd, this]
+      simp [slotVal, upd, this]
 
 theorem writeSlot_objs (h : Heap) (x s v : Nat) : (Sqfs.Obj.writeSlot h x s v).objs = h.objs := by
   unfold Sqfs.Obj.writeSlot Heap.fail
